@@ -66,7 +66,7 @@ func selectAttributes(nodeSet NodeSet) Result {
 		result = append(result, i.Attributes()...)
 	}
 
-	return NodeSet(result)
+	return cleanupForwardAxis(result)
 }
 
 func selectAncestor(nodeSet NodeSet) Result {
